@@ -637,9 +637,11 @@ def rx(e):
 def rexpr(e):
     k = e["k"]
     if k == "int":
+        if e.get("src"):
+            return e["src"]
         return str(e["v"]) if e["v"] >= 0 else "0 - %d" % -e["v"]
     if k == "str":
-        return '"%s"' % e["v"]
+        return '"%s"' % e.get("src", e["v"])
     if k == "bool":
         return "true" if e["v"] else "false"
     if k == "unit":
@@ -913,6 +915,22 @@ def eq_kernels(start_id):
                     progs.append(_prog(pid[0], types, [], {"stmts": stmts, "fin": {"k": "bin", "op": op, "a": l, "b": r}}, BOOL))
                     progs[-1]["meta"] = {"family": "eq"}        # (fc profile only: not part of the tinyfo kernels)
                     pid[0] += 1
+    # two spellings of one string (an escape and the character itself): equality is about the denoted strings, not their source text
+    for equal in (True, False):
+        for op in ("=", "<>"):
+            for fl, fr in (("lit", "lit"), ("lit", "var"), ("var", "lit")):
+                a = {"k": "str", "v": "a\tb", "src": "a\\tb"}
+                b = {"k": "str", "v": "a\tb" if equal else "a b"}
+                stmts = []
+                def form2(f, e, name):
+                    if f == "lit":
+                        return e
+                    stmts.append({"k": "let", "x": name, "e": e, "vt": STR})
+                    return {"k": "var", "x": name}
+                l, r = form2(fl, a, "va"), form2(fr, b, "vb")
+                progs.append(_prog(pid[0], [], [], {"stmts": stmts, "fin": {"k": "bin", "op": op, "a": l, "b": r}}, BOOL))
+                progs[-1]["meta"] = {"family": "eq"}
+                pid[0] += 1
     return progs
 
 
@@ -956,6 +974,9 @@ def kernels(start_id):
                               "b": {"k": "bin", "op": "+", "a": {"k": "field", "e": {"k": "var", "x": "r"}, "n": "b"}, "b": {"k": "field", "e": {"k": "var", "x": "r"}, "n": "C"}}}})
     for op in ["+", "-", "*", "<", ">", "<=", ">=", "=", "<>"]:
         add([], [], {"stmts": [], "fin": {"k": "bin", "op": op, "a": _pi(T(1), 3), "b": _pi(T(2), 4)}}, BOOL if op in ("<", ">", "<=", ">=", "=", "<>") else INT)
+    # integer literals are decimal, also with leading zeros (not octal)
+    add([], [], {"stmts": [], "fin": {"k": "bin", "op": "+", "a": {"k": "int", "v": 10, "src": "010"},
+                                      "b": {"k": "bin", "op": "+", "a": {"k": "int", "v": 100, "src": "0100"}, "b": {"k": "int", "v": 9, "src": "09"}}}})
     add([], [], {"stmts": [], "fin": {"k": "tuple", "es": [_pi(T(1), 1), _pi(T(2), 2), _pb(T(3), True)]}}, ("tup", (INT, INT, BOOL)))
     add([], [], {"stmts": [], "fin": {"k": "slice", "es": [_pi(T(1), 1), _pi(T(2), 2), _pi(T(3), 3)]}}, ("sl", INT))
     for n in (1, 2, 3):
